@@ -107,7 +107,9 @@ def check(ctx, src):
     fz = comp.sc.func("ScopeGen.finalize")
     ctx.require(fz is not None, "ScopeGen.finalize not found")
     rt = [n for n in pyq.walk_no_nested(fz) if isinstance(n, ast.Return)]
-    ctx.check(len(rt) == 1 and norm(rt[0].value) == "sorted(res)", "COMP-LEAK", f"{SC}|ScopeGen.finalize|sorted", "leaked names must be returned sorted", SC, fz.lineno, detail="sorted(res)")
+    srt = [isinstance(r.value, ast.Call) and dotted(r.value.func) == "sorted" for r in rt if r.value is not None]
+    ctx.decide("COMP-LEAK", f"{SC}|ScopeGen.finalize|sorted", None if not srt else all(srt), "leaked names must be returned sorted (they are collected in a set; the order of the emitted nonlocal/global names would vary between runs)",
+               SC, fz.lineno, witness="the compiled output of a comprehension with two setx targets differs between processes", detail="sorted(...)")
     ex = pyq.contains(f, lambda n: isinstance(n, ast.If) and norm(n.test) == "scope.exposing_assignments and assignment_names")
     ut = pm.find(f, "unlocal_type = asty.Nonlocal if is_inside_function_scope(scope.parent) else asty.Global")
     ctx.check(ex is not None and ut is not None, "COMP-LEAK", f"{R}|{FN}|expose",
